@@ -1,6 +1,7 @@
 package storesim
 
 import (
+	"runtime"
 	"errors"
 	"fmt"
 	"math/rand"
@@ -368,6 +369,72 @@ func concHistory(cfg c11cfg, seed int64, procs, txns int) (rec, error) {
 	return rec{"upto": 0, "calls": calls, "genids": false, "ncb": cfg.ncb, "overlap": overlap, "dbg": cfg.String() + fmt.Sprintf(" concurrent procs=%d", procs)}, nil
 }
 
+// lockHammer: a few goroutines open write transactions on ONE id as fast as they can - read the counter stored
+// there, write counter+1, close - with moments in which nobody holds or waits for the id. While a write
+// transaction is open no other goroutine's write transaction on the id makes progress: no two are ever inside,
+// no increment is lost, no call fails.
+func lockHammer(cfg c11cfg, procs, rounds int) (rec, error) {
+	w, err := newC11World(cfg)
+	if err != nil {
+		return nil, err
+	}
+	defer w.clean()
+	t := w.st.Write("a")
+	if err := t.Create(w.conc("n0")); err != nil {
+		t.Close()
+		return nil, err
+	}
+	t.Close()
+	var inside, overlaps, failed int32
+	var wg sync.WaitGroup
+	for p := 0; p < procs; p++ {
+		wg.Add(1)
+		go func(p int) {
+			defer wg.Done()
+			for k := 0; k < rounds; k++ {
+				t := w.st.Write("a")
+				if atomic.AddInt32(&inside, 1) > 1 {
+					atomic.AddInt32(&overlaps, 1)
+				}
+				v, err := t.Value()
+				n := 0
+				if err == nil {
+					fmt.Sscanf(w.abs(v), "n%d", &n)
+					err = t.Update(w.conc(fmt.Sprintf("n%d", n+1)))
+				}
+				if err != nil {
+					atomic.AddInt32(&failed, 1)
+				}
+				atomic.AddInt32(&inside, -1)
+				t.Close()
+				if k%7 == p%7 {
+					runtime.Gosched() // (let the id go idle now and then)
+				}
+			}
+		}(p)
+	}
+	wg.Wait()
+	overlap := []string{}
+	if n := atomic.LoadInt32(&overlaps); n > 0 {
+		overlap = append(overlap, fmt.Sprintf("%d times a write transaction on id a was opened while another goroutine's was open", n))
+	}
+	if n := atomic.LoadInt32(&failed); n > 0 {
+		overlap = append(overlap, fmt.Sprintf("%d Value/Update calls inside the write transactions failed", n))
+	}
+	rt := w.st.Read("a")
+	v, err := rt.Value()
+	rt.Close()
+	final := -1
+	if err == nil {
+		fmt.Sscanf(w.abs(v), "n%d", &final)
+	}
+	if final != procs*rounds {
+		overlap = append(overlap, fmt.Sprintf("%d increments made, the stored counter is %d", procs*rounds, final))
+	}
+	w.drainCbs()
+	return rec{"upto": 0, "calls": []rec{}, "genids": false, "ncb": cfg.ncb, "overlap": overlap, "dbg": cfg.String() + fmt.Sprintf(" lock hammer procs=%d rounds=%d", procs, rounds)}, nil
+}
+
 func classifyC11(r rec, upto int) string {
 	calls := r["calls"].([]rec)
 	if upto >= 1 && upto <= len(calls) {
@@ -419,6 +486,11 @@ func RunC11(c *core.Ctx) {
 		}
 		if cfg.genids {
 			continue
+		}
+		if !cfg.veto {
+			if r, err := lockHammer(cfg, 2+len(recs)%3, c.Pick(4000, 20000)); err == nil {
+				recs = append(recs, r)
+			}
 		}
 		for i := 0; i < c.Pick(6, 60); i++ {
 			procs := 2 + rng.Intn(6)
